@@ -76,7 +76,7 @@ PROPS = {
     "C18": {
         "manifest": {
             "technique": "machine-checked proof in Coq (deep-merge characterisation by induction on trees; include processing equals load of the merged tree) + model/implementation correspondence by vm_compute on real include files",
-            "text": "Twenty-two theorems in coq/theories/Tree*.v for all trees: lookup in the merged tree (included value wins, maps merge recursively, map/non-map conflicts go to the included side), key set and order of the merge, include at the root and in a nested scope equals the scope-local merge, a failing include fails the load, absent/None include names change nothing; chains of include fields in one scope are a left fold of the merge in field order (do_includes over a concatenation, for lists of any length), the second file name is read from the already merged tree, the later file wins, keys only the earlier file sets are kept, a later include that fails fails the whole load after any prefix (the merge is shown NOT to be associative by a computed example, so the order of the fold is part of the statement). A scope without nested schemas is exactly that fold; include fields the document does not name (absent or None), however many, read nothing and change nothing. Identity laws: an empty included file leaves the document as it is, an empty document becomes the included file (keys in the file's order); idempotence: merging a tree with distinct keys at every level into itself changes nothing (induction on tree size). Order of the walk: the include fields of a scope are merged before its nested scopes are entered (a sub-configuration that arrives through a root-level include and names its own include is followed in its own scope), and a failing include in a nested scope fails the whole load after any root-level merges. Model tied to IncludeField.combine_trees and Config._process_includes by running the same trees, schemas and real files and comparing inside Coq; purity of combine_trees decided on the implementation by deep-copy comparison.",
+            "text": "Twenty-three theorems in coq/theories/Tree*.v for all trees: lookup in the merged tree (included value wins, maps merge recursively, map/non-map conflicts go to the included side), key set and order of the merge, include at the root and in a nested scope equals the scope-local merge, a failing include fails the load, absent/None include names change nothing; chains of include fields in one scope are a left fold of the merge in field order (do_includes over a concatenation, for lists of any length), the second file name is read from the already merged tree, the later file wins, keys only the earlier file sets are kept, a later include that fails fails the whole load after any prefix (the merge is shown NOT to be associative by a computed example, so the order of the fold is part of the statement). A scope without nested schemas is exactly that fold; include fields the document does not name (absent or None), however many, read nothing and change nothing; a schema that declares no include field at any depth (any nesting) loads every document as it is. Identity laws: an empty included file leaves the document as it is, an empty document becomes the included file (keys in the file's order); idempotence: merging a tree with distinct keys at every level into itself changes nothing (induction on tree size). Order of the walk: the include fields of a scope are merged before its nested scopes are entered (a sub-configuration that arrives through a root-level include and names its own include is followed in its own scope), and a failing include in a nested scope fails the whole load after any root-level merges. Model tied to IncludeField.combine_trees and Config._process_includes by running the same trees, schemas and real files and comparing inside Coq; purity of combine_trees decided on the implementation by deep-copy comparison.",
             "note": "Trusted: Coq kernel + vm_compute; the correspondence harness; file-name validation/open/parse of an included file is an oracle (Section variable) answered from the real files. Dict keys distinct (NoDup hypothesis). No axioms.",
             "design_ref": "DESIGN.md section 6 C18"},
         "streams": ["merge", "includes"],
